@@ -1,0 +1,25 @@
+//go:build verif
+
+package tubes
+
+// Verification harnesses (compiled only with -tags verif; never called by the
+// program).  Each composes an encoder with its decoder so that the round trip
+// becomes a postcondition of one function, proved modularly from the contracts
+// of the two real functions it calls (see zz_contracts_verif.go).
+
+func verifFrameRoundTrip(p *frame) (*frame, error) {
+	return fromBytes(p.toBytes())
+}
+
+func verifInitiateFrameRoundTrip(p *initiateFrame) *initiateFrame {
+	return fromInitiateBytes(p.toBytes())
+}
+
+func verifFlagsRoundTrip(f frameFlags) frameFlags {
+	return metaToFlags(flagsToMetaByte(&f))
+}
+
+func verifMetaRoundTrip(b byte) byte {
+	f := metaToFlags(b)
+	return flagsToMetaByte(&f)
+}
